@@ -27,7 +27,7 @@ META = {
                   "encode_scalar validated on code points); Bytes is modelled as a window into an immutable buffer (capacity, "
                   "reference counts, vtables not modelled); Hasher::write_str default (bytes then 0xFF); serde impls out of scope.",
     "rule": "stream c20: all byte strings of length <= 5 over {41,c3,a9,e2,82,ac,f0,9f,98,80,ff,c0,ed,a0} (exhaustive, both tiers); "
-            "stream c20r: seeded random strings (length 6..8 over the fragments; scalar-based strings <= 12 bytes, mostly valid, with "
+            "stream c20x (thorough): all strings of length 6 over {41,c3,a9,e2,82,ac,ed,a0}; stream c20r: seeded random strings (length 6..8 over the fragments; scalar-based strings <= 12 bytes, mostly valid, with "
             "targeted damage); non-trivial = contains a byte >= 0x80. stream c20v: seeded random strings <= 12 bytes (valid vs from_utf8). stream c20e: code points around every "
             "encoding-length/surrogate/range boundary + random (thorough: all 0..0x110010). stream c20p: all ordered pairs of valid "
             "strings of length <= 3 over the alphabet + random longer valid pairs (prefix/equal pairs included). stream c20s: seeded "
@@ -69,15 +69,19 @@ def fields(tr):
 # ------------------------------------------------------------------------------------------------
 def why_c20(case, impl):
     n = len(case) // 2
-    if "!" in impl:
-        return "invalid-utf8-value"
+    for f in impl.split("|"):          # a produced value that is not UTF-8 / does not hold the expected bytes
+        if "!" in f:
+            return "invalid-utf8-value@" + f[:1]
+    for f in impl.split("|"):
+        if "?" in f:
+            return "wrong-bytes@" + f[:1]
     d = fields(impl)
     v = d.get("V")
     if v not in ("0", "1"):
         return "no-trace"
     t = d.get("T", "")
-    if len(t) != 6 or "?" in t:
-        return "try_from-bytes"
+    if len(t) != 6:
+        return "no-trace"
     if v == "0":
         # from_utf8 rejects: every fallible constructor must reject
         if any(c not in "E-" for c in t):
@@ -85,8 +89,6 @@ def why_c20(case, impl):
         return None if set(d) == {"V", "T"} else "no-trace"
     if any(c not in "=-" for c in t):
         return "try_from-rejects-valid"
-    if "?" in impl:
-        return "wrong-bytes"
     need = "FSsBLlRWGHhD"
     if any(k not in d for k in need):
         return "no-trace"
@@ -507,7 +509,7 @@ def streams(ctx):
     L = 5
     # ---- c20: per-string, exhaustive + random ----
     ex = ["".join(t) for n in range(0, L + 1) for t in itertools.product(ALPHA, repeat=n)]
-    nr = 30000 if quick else 150000
+    nr = 30000 if quick else 600000
     rnd = []
     for _ in range(nr):
         if rng.random() < 0.4:
@@ -524,7 +526,7 @@ def streams(ctx):
                  shrink=shrink_hex, to_coq=to_coq_c20, coq_imports=COQ_IMPORTS,
                  describe="random: %d strings of length <= 12 (fragment strings of length %d..8; scalar-based strings with targeted damage); %s" % (nr, L + 1, per))
     # ---- c20v: valid vs from_utf8 on random strings ----
-    nv = 100000 if quick else 1000000
+    nv = 100000 if quick else 2000000
     vs = [rand_bytes(rng, 12, 0.45).hex() for _ in range(nv)]
     s2 = Stream("c20v", "c20v", vs, monitor=lambda c, i, m: i in ("0", "1"), nontrivial=lambda c, m: nonascii(c),
                 shrink=shrink_hex, to_coq=to_coq_c20v, coq_imports=COQ_IMPORTS,
@@ -548,7 +550,7 @@ def streams(ctx):
     extra = [e for e in extra if py_valid(bytes.fromhex(e))]
     base = small + extra
     pairs = [a + "," + b for a in base for b in base]
-    npair = 20000 if quick else 200000
+    npair = 20000 if quick else 600000
     for _ in range(npair):
         a = rand_valid(rng, 10)
         r = rng.random()
@@ -571,7 +573,7 @@ def streams(ctx):
                          "pairs (equal / prefix / common-prefix / unrelated): ==, != against &str, str, String, ByteString; cmp, "
                          "partial_cmp, <, <=, >, >= against str" % (len(base) ** 2, len(base), npair))
     # ---- c20s: construction sequences ----
-    ns = 30000 if quick else 300000
+    ns = 30000 if quick else 1000000
     scripts = [gen_script(rng, rng.randint(6, 14)) for _ in range(ns)]
     mon, key = mk(why_c20s)
     s5 = Stream("c20s", "c20s", scripts, monitor=mon, finding_key=key,
@@ -581,4 +583,12 @@ def streams(ctx):
                 describe="%d random construction sequences of 6..14 safe-API calls over a pool of ByteStrings that share buffers "
                          "(try_from on shared Bytes sub-slices, split_at, slice_ref with subsets of the same / a parent / a foreign "
                          "buffer, From kinds on sub-slices, clone)" % ns)
-    return [s1, s1r, s2, s3, s4, s5]
+    out = [s1, s1r, s2, s3, s4, s5]
+    if not quick:
+        # thorough only: all strings of length 6 over a reduced alphabet (1-, 2-, 3-byte fragments, the surrogate lead)
+        a8 = ["41", "c3", "a9", "e2", "82", "ac", "ed", "a0"]
+        ex6 = ["".join(t) for t in itertools.product(a8, repeat=6)]
+        out.insert(1, Stream("c20x", "c20", ex6, monitor=mk(why_c20)[0], finding_key=mk(why_c20)[1], nontrivial=lambda c, m: nonascii(c),
+                             shrink=shrink_hex, exhaustive=True,
+                             describe="exhaustive: all %d strings of length 6 over {41,c3,a9,e2,82,ac,ed,a0}; %s" % (len(ex6), per)))
+    return out
